@@ -111,6 +111,17 @@ def check_file(path, fname, out):
             if isinstance(s, (ast.Global, ast.Nonlocal)):
                 out.append("%s:%d: %s statement in %s" % (fname, s.lineno, type(s).__name__.lower(), fd.name))
         for s in ast.walk(fd):
+            # any binding whose right-hand side mentions a shared object ANYWHERE (tuple targets, displays, conditional
+            # expressions, subscripts of displays ...): every name it binds may alias it
+            if isinstance(s, (ast.Assign, ast.AnnAssign, ast.NamedExpr, ast.For, ast.comprehension, ast.withitem)):
+                val = getattr(s, "value", None) or getattr(s, "iter", None) or getattr(s, "context_expr", None)
+                tgs = s.targets if isinstance(s, ast.Assign) else [getattr(s, "target", None) or getattr(s, "optional_vars", None)]
+                if val is not None and any(mentions_class_data(x) or (isinstance(x, ast.Name) and x.id in shared and x.id not in params
+                                                                      and not isinstance(val, ast.Call)) for x in ast.walk(val)):
+                    for tg in tgs:
+                        for x in (ast.walk(tg) if tg is not None else []):
+                            if isinstance(x, ast.Name):
+                                alias.add(x.id)
             if isinstance(s, ast.Assign) and len(s.targets) == 1 and isinstance(s.targets[0], ast.Name):
                 r = root_name(s.value)
                 if r in shared and r not in params and not isinstance(s.value, ast.Call) or \
